@@ -38,11 +38,11 @@ MAXV = 12   # violations reported per part
 # ----------------------------------------------------------------------------------------
 def int_modes(quick):
     ms = [Mode("single", None, "lower", "float"),
-          Mode("single", None, "twice", "int"),
+          Mode("single", None, "twice", "int", via="method"),
           Mode("multi", None, "upper", "mixed"),
           Mode("multi", False, "reverse", "float"),
           Mode("shapes", False, "mixed", "int"),
-          Mode("digit", None, "lower", "float")]
+          Mode("digit", None, "lower", "float", via="method")]
     if not quick:
         ms += [Mode("single", False, "upper", "float"), Mode("long", None, "twice", "mixed"),
                Mode("long", False, "mixed", "int"), Mode("digit", False, "upper", "mixed"),
@@ -51,7 +51,7 @@ def int_modes(quick):
 
 
 def cx_modes(quick):
-    ms = [Mode("single", None, "lower", "float"), Mode("multi", None, "upper", "float"),
+    ms = [Mode("single", None, "lower", "float"), Mode("multi", None, "upper", "float", via="method"),
           Mode("digit", False, "reverse", "float")]
     if not quick:
         ms += [Mode("single", None, "twice", "complex"), Mode("long", False, "mixed", "complex"),
@@ -60,14 +60,19 @@ def cx_modes(quick):
 
 
 def fox_modes(quick):
-    ms = [Mode("single", None, "lower", "float"), Mode("single", None, "reverse", "int"),
+    ms = [Mode("single", None, "lower", "float"), Mode("single", None, "reverse", "int", via="method"),
           Mode("single", None, "upper", "mixed"), Mode("single", None, "twice", "float")]
     return ms
 
 
-def derived_mode(mode, drep):
-    """the word syntax of a derived representation is decided by its own public parse_simple"""
-    return Mode(mode.naming, False if getattr(drep, "parse_simple", True) is False else None, mode.order, mode.dtype)
+def derived_mode(mode, drep, inherits=True):
+    """the word syntax of a derived representation.  Copies and everything built by composition (copy, wrap,
+    astype, compose, conjugate, dual, adjoints) parse words exactly as their source does: the SAME word
+    strings are used on them (inherits).  tensor_product / symmetric_square / subgroup build a fresh
+    Representation whose syntax is decided by its own public parse_simple."""
+    if inherits:
+        return mode
+    return Mode(mode.naming, False if getattr(drep, "parse_simple", True) is False else None, mode.order, mode.dtype, mode.via)
 
 
 # ----------------------------------------------------------------------------------------
@@ -104,10 +109,24 @@ def need(bad, prefix=""):
         raise Bad(prefix + bad[0], bad[1])
 
 
-def routes_for_kind(rep, k, mode, cx):
-    """library routes that realise the derived kind k of the specification"""
+def integral(rep):
+    return all(np.asarray(m).dtype.kind in "iuf" and np.all(np.asarray(m) == np.round(np.asarray(m))) for m in rep.generators.values())
+
+
+def routes_for_kind(rep, k, mode, cx, wrap=None):
+    """library routes that realise the derived kind k of the specification; wrap: the Transformation /
+    Isometry class when rep is a wrapped (projective / hyperbolic) representation"""
     from geometry_tools import lie
     kind = k["kind"]
+    if wrap is not None and kind == "conjugate":
+        C = np.array(rc.to_array(k["C"], cx), dtype=float)
+        return [("wrapped.conjugate(%s(C))" % wrap.__name__, lambda: rep.conjugate(wrap(C, column_vectors=True))),
+                ("wrapped.conjugate(C, unwrap=False)", lambda: rep.conjugate(C, unwrap=False))]
+    if kind == "astype" and not cx and integral(rep):
+        # every stored matrix (inverses included) is exactly integral: an integer target is exact as well
+        return [("rep.astype('float64')", lambda: rep.astype("float64"), "float64"),
+                ("rep.astype('int64')", lambda: rep.astype("int64"), "int64"),
+                ("rep.astype('complex128')", lambda: rep.astype("complex128"), "complex128")]
     if kind == "copy":
         return [("type(rep)(rep)", lambda: type(rep)(rep))]
     if kind == "astype":
@@ -139,13 +158,45 @@ def routes_for_kind(rep, k, mode, cx):
     raise core.MachineryFailure("unknown derived kind %r" % (kind,))
 
 
-def check_derived(drep, mode, dgens, vals, dim):
-    dm = derived_mode(mode, drep)
+def check_derived(drep, mode, dgens, vals, dim, inherits=True, cmp=None):
+    dm = derived_mode(mode, drep, inherits)
     need(rc.dict_check(drep, dgens, dm, "derived.generators"))
     if drep.dim != dim:
         raise Bad("derived.dim", "dim %r, specified %r" % (drep.dim, dim))
-    need(rc.words_check(drep, dm, vals, "derived.image", norms=rc.norms_of(dgens)))
+    need(rc.words_check(drep, dm, vals, "derived.image", norms=rc.norms_of(dgens), cmp=cmp))
     return len(vals)
+
+
+def second_steps(drep, mode, dgens, vals, dim, inherits=True, cmp=None):
+    """a derived representation is a representation: copy it, take a subgroup of it, assign to it.
+    Expected values are the specified derived dictionary / images themselves."""
+    dm = derived_mode(mode, drep, inherits)
+    n = check_derived(type(drep)(drep), mode, dgens, vals[:8], dim, inherits, cmp)
+    lows = sorted(l for l in dgens if l.islower())
+    two = [(w, m) for w, m in vals if len(w) == 2][:2]
+    if two:
+        try:
+            sub = drep.subgroup({dm.name(rc.LOWER[i]): dm.word(w) for i, (w, _) in enumerate(two)})
+        except Exception as e:
+            raise Bad("raised:derived.subgroup", "subgroup of the derived representation raised %s: %s" % (type(e).__name__, e))
+        for i, (w, m) in enumerate(two):
+            got = sub.generators.get(dm.name(rc.LOWER[i]))
+            if got is None or np.asarray(got).dtype.kind not in "iufc" or not (cmp or rc.close)(sub[[dm.name(rc.LOWER[i])]], m):
+                raise Bad("derived.subgroup", "subgroup generator for the word %r = %r, specified %r" % (dm.word(w), rc.show(got), rc.show(m)))
+            n += 1
+    # exchange a generator with its inverse by assignment
+    g = lows[0]
+    val = drep.generators[dm.name(g.upper())]
+    if hasattr(type(drep), "wrap_func") and type(drep).wrap_func(np.identity(2)) is not None and type(drep).__name__ != "Representation":
+        val = type(drep).wrap_func(val)
+    try:
+        dm.assign(drep, g, val)
+    except Exception as e:
+        raise Bad("raised:derived.assign", "assignment to the derived representation raised %s: %s" % (type(e).__name__, e))
+    swapped = dict(dgens)
+    swapped[g], swapped[g.upper()] = dgens[g.upper()], dgens[g]
+    need(rc.dict_check(drep, swapped, dm, "derived.generators"), "after_assignment:")
+    return n + 1
 
 
 def auto_check(rep, L, table, red, norms=None, full=True):
@@ -235,27 +286,42 @@ def part_base(row, mode, cx=False):
     return n
 
 
+WRAPPED_KINDS = ("copy", "conjugate", "dual", "compose_id", "compose_invT", "astype", "gln_adjoint", "sln_adjoint", "symmetric_square")
+
+
 def part_kind(row, mode, cx=False):
     gens = gens_of(row["gens"], cx)
     dgens = gens_of(row["dgens"], cx)
     vals = table_of(row["vals"], cx)
+    kind = row["kind"]["kind"]
+    inherits = kind != "symmetric_square"
     n = 0
     rep = rc.build(mode, gens)
-    for route in routes_for_kind(rep, row["kind"], mode, cx):
-        name, f = route[0], route[1]
-        try:
-            drep = f()
-        except Exception as e:
-            raise Bad("raised:" + row["kind"]["kind"], "%s raised %s: %s" % (name, type(e).__name__, e))
-        try:
-            n += check_derived(drep, mode, dgens, vals, row["dim"])
-            if len(route) > 2:
-                for nm, m in drep.generators.items():
-                    if np.asarray(m).dtype != np.dtype(route[2]):
-                        raise Bad("astype.dtype", "generator %r has dtype %s after astype(%r)" % (nm, np.asarray(m).dtype, route[2]))
-            need(rc.dict_check(rep, gens, mode), "original_changed:")
-        except Bad as b:
-            raise Bad(b.clause, "%s: %s" % (name, b.detail))
+    targets = [("", rep, routes_for_kind(rep, row["kind"], mode, cx), None)]
+    if not cx and kind in WRAPPED_KINDS and row["dim"] <= 9:
+        # the same construction on a wrapped representation (results compared up to projective scale)
+        from geometry_tools import projective
+        T = projective.Transformation
+        wrep = rc.build(mode, gens, cls=projective.ProjectiveRepresentation, wrap=lambda M: T(np.array(M, dtype=float), column_vectors=True))
+        targets.append(("ProjectiveRepresentation: ", wrep, routes_for_kind(wrep, row["kind"], mode, cx, wrap=T), rc.proj_close))
+    for prefix, src, routes, cmp in targets:
+        for route in routes:
+            name, f = prefix + route[0], route[1]
+            try:
+                drep = f()
+            except Exception as e:
+                raise Bad("raised:" + kind, "%s raised %s: %s" % (name, type(e).__name__, e))
+            try:
+                n += check_derived(drep, mode, dgens, vals, row["dim"], inherits, cmp)
+                if len(route) > 2:
+                    for nm, m in drep.generators.items():
+                        if np.asarray(m).dtype != np.dtype(route[2]):
+                            raise Bad("astype.dtype", "generator %r has dtype %s after astype(%r)" % (nm, np.asarray(m).dtype, route[2]))
+                need(rc.dict_check(src, gens, mode), "original_changed:")
+                n += second_steps(drep, mode, dgens, vals, row["dim"], inherits, cmp)
+                need(rc.dict_check(src, gens, mode), "original_changed_by_second_step:")
+            except Bad as b:
+                raise Bad(b.clause, "%s: %s" % (name, b.detail))
     return n
 
 
@@ -281,7 +347,7 @@ def part_tensor(row, mode, cx=False):
         drep = rep.tensor_product(rep2)
     except Exception as e:
         raise Bad("raised:tensor_product", "rep.tensor_product(other) raised %s: %s" % (type(e).__name__, e))
-    n = check_derived(drep, mode, gens_of(row["dgens"], cx), table_of(row["vals"], cx), row["n"] * row["n"])
+    n = check_derived(drep, mode, gens_of(row["dgens"], cx), table_of(row["vals"], cx), row["n"] * row["n"], inherits=False)
     need(rc.dict_check(rep, gens, mode), "original_changed:")
     need(rc.dict_check(rep2, other, m2), "other_changed:")
     return n
@@ -338,7 +404,7 @@ def part_wrap(row, mode):
             except Exception as e:
                 raise Bad("raised:wrap", "%s raised %s: %s" % (name, type(e).__name__, e))
             try:
-                wm = derived_mode(mode, wrep)
+                wm = derived_mode(mode, wrep)      # a wrapped copy parses words as its source does
                 need(rc.dict_check(wrep, gens, wm, "wrapped.generators"))
                 need(rc.words_check(wrep, wm, vals, "wrapped.image", cmp=rc.proj_close))
                 for w, want in vals:
@@ -557,7 +623,8 @@ def hkey(k):
 
 
 def hist_modes(quick):
-    ms = [Mode("single", None, "lower", "float"), Mode("multi", None, "lower", "mixed"), Mode("digit", False, "lower", "int")]
+    ms = [Mode("single", None, "lower", "float"), Mode("multi", None, "lower", "mixed", via="method"),
+          Mode("digit", False, "lower", "int")]
     if not quick:
         ms += [Mode("shapes", None, "lower", "float")]
     return ms
@@ -614,11 +681,11 @@ def replay_path(path, mode, eval_everywhere=True):
     for i, (act, to) in enumerate(path):
         try:
             if act["a"] == "set":
-                rep[mode.name(act["name"])] = mode.cast(np.array(act["M"], dtype=float), i)
+                mode.assign(rep, act["name"], mode.cast(np.array(act["M"], dtype=float), i))
             elif act["a"] == "derive":
                 der = routes_for_kind(rep, act["kind"], mode, False)[0][1]()
             elif act["a"] == "setder":
-                der[mode.name(act["name"])] = mode.cast(np.array(act["M"], dtype=float), i)
+                mode.assign(der, act["name"], mode.cast(np.array(act["M"], dtype=float), i))
         except Exception as e:
             return ("raised:" + act["a"], "step %d %s raised %s: %s" % (i + 1, act_label(act), type(e).__name__, e))
         last = i == len(path) - 1
